@@ -141,6 +141,7 @@ pub fn run(ctx: &Ctx) {
     });
     foreign_members(ctx, P, "foreign-members");
     crate::hist::long_runs(ctx, P, "transaction-long-runs", "Transaction from JSON, sign, encode: a long run on one fresh thread", if ctx.quick() { 40 } else { 300 }, crate::hist::c06_nth());
-    { let l = crate::hist::size_ladder(ctx.thorough()); let l: Vec<usize> = l.into_iter().filter(|n| ctx.thorough() || *n <= (1 << 20) + 100).collect(); crate::hist::size_runs(ctx, P, "transaction-size-runs", "Transaction from JSON, sign, encode: calldata sizes across orders of magnitude on one fresh thread", &l, crate::hist::c06_sized(ctx.seed)); }
+    crate::hist::under_entropy_answers(ctx, P, "transactions-under-entropy-answers", "Transaction from JSON, sign, encode with the entropy source scripted", crate::hist::tx_ops());
+    { let l = crate::hist::size_ladder(ctx.thorough()); let l: Vec<usize> = l.into_iter().filter(|n| *n <= if ctx.thorough() { (1 << 22) + 1 } else { (1 << 20) + 100 }).collect(); crate::hist::size_runs(ctx, P, "transaction-size-runs", "Transaction from JSON, sign, encode: calldata sizes across orders of magnitude on one fresh thread", &l, crate::hist::c06_sized(ctx.seed)); }
 }
 fn kind_label(k: Kind) -> &'static str { match k { Kind::Legacy => "legacy", Kind::Eip2930 => "eip2930", Kind::Eip1559 => "eip1559" } }
